@@ -352,7 +352,7 @@ def run_case(inp):
                     V("chunk-independent", f"{kind} picker with chunks {chunks} returns {len(got[0])} molecules, "
                                            f"{len(ref[0])} for the numpy image ({len(want)} particles)")
                     continue
-                if np.abs(got[0] - ref[0]).max() > tol:
+                if not (np.abs(got[0] - ref[0]).max() <= tol):
                     V("chunk-independent", f"{kind} picker with chunks {chunks}: positions differ from the numpy result by "
                                            f"{np.abs(got[0] - ref[0]).max():.3g}")
                 dq = np.minimum(np.abs(got[1] - ref[1]).max(axis=1), np.abs(got[1] + ref[1]).max(axis=1))
